@@ -189,7 +189,10 @@ func (c *Client) DoMultiStatus(req *http.Request) (*MultiStatus, error) {
 	defer resp.Body.Close()
 
 	if resp.StatusCode != http.StatusMultiStatus {
-		return nil, fmt.Errorf("HTTP multi-status request failed: %v", resp.Status)
+		return nil, &HTTPError{
+			Code: resp.StatusCode,
+			Err:  fmt.Errorf("HTTP multi-status request failed: expected 207 Multi-Status"),
+		}
 	}
 
 	// TODO: the response can be quite large, support streaming Response elements
